@@ -189,7 +189,8 @@ static std::string mixcase(const std::string &s, bool upper, hz::Rng &rng, bool 
   std::string o = s; for (auto &ch : o) if (upper && (!mixed || rng.coin())) ch = (char)toupper((unsigned char)ch); return o;
 }
 static std::string sp(int n) { return std::string(n, ' '); }
-static std::string num_styled(uint64_t v, bool neg, bool hex, int pad, const Style &st, bool allow_radix, hz::Rng &rng) {
+static std::string num_styled(uint64_t v, bool neg, bool hex, int pad, const Style &st, bool allow_radix, hz::Rng &rng, bool is_disp = false) {
+  if (is_disp && allow_radix && st.radix == 3 && rng.below(3) == 0) { std::string s = numtext(v, neg, true, 16 + (int)rng.below(6)); for (auto &ch : s) { if (ch == 'x' && st.upper_x) ch = 'X'; else if (st.upper_hex && ch >= 'a' && ch <= 'f') ch = (char)toupper(ch); } return s; }   // a displacement has no digit-count rule: 16..21 hex digits
   if (allow_radix && st.radix == 4) { std::string d = numtext(v, false, false, 0); if (neg) d = numtext(v, true, false, 0).substr(1); return std::string(neg ? "-" : "") + std::string(1 + rng.below(3), '0') + d; }
   if (allow_radix && st.radix) { if (st.radix == 1) { hex = false; pad = 0; } else { hex = true; pad = st.radix == 3 ? pad + 1 + (int)rng.below(3) : pad; if (st.radix == 3 && pad < 2) pad = 2 + (int)rng.below(4); } }
   // a zero-padded literal must not reach 16 digits by accident (that would be a different SMART-mode request)
@@ -220,7 +221,7 @@ static std::string styled(const Intent &it, const Style &st, bool allow_radix) {
           if (m.scale != 1 || m.scale_written) { if (m.scale_first) s += std::to_string(m.scale) + sp(st.sp_in) + "*" + sp(st.sp_in) + r; else s += r + sp(st.sp_in) + "*" + sp(st.sp_in) + std::to_string(m.scale); } else s += r;
           any = true;
         }
-        if (m.has_disp || !any) { bool neg = m.disp < 0; if (any) s += sp(st.sp_in) + (neg ? "-" : "+") + sp(st.sp_in); else if (neg) s += "-"; s += num_styled((uint64_t)(neg ? -m.disp : m.disp), false, m.disp_hex, m.disp_pad, st, allow_radix, rng); }
+        if (m.has_disp || !any) { bool neg = m.disp < 0; if (any) s += sp(st.sp_in) + (neg ? "-" : "+") + sp(st.sp_in); else if (neg) s += "-"; s += num_styled((uint64_t)(neg ? -m.disp : m.disp), false, m.disp_hex, m.disp_pad, st, true, rng, true); }
         s += sp(st.sp_in) + "]"; break; }
       case K_IMM: s += num_styled(o.imm.v, o.imm.neg, o.imm.hex, o.imm.pad, st, allow_radix, rng); break;
       case K_REL: s += num_styled(o.imm.v, o.imm.neg, o.imm.hex, o.imm.pad, st, allow_radix, rng); break;
@@ -261,7 +262,7 @@ static SpV check_spelling(const Intent &it, int combo, uint64_t styleseed) {
 // programs with blank / comment / label / directive lines inserted at every position, LF vs CRLF
 static SpV check_program_noise(const std::vector<std::string> &lines, int combo, uint64_t seed, std::string *prog_out) {
   SpV v; hz::Rng rng(seed);
-  static const char *NOISE[] = {"", "   ", "; a comment", "label:", "  loop_1:  ; with comment", "section .text", "global _start", "%define X 5", "SECTION .data", "\t; indented comment", "GLOBAL main", "%macro foo 0", ".L1:", "done: ", "top:\t", "loop: ; top of the loop", "a1: ;", "end:   ;;; x", "  exit:", "start :", "  loop_2   :   ; head", "x\t:"};
+  static const char *NOISE[] = {"", "   ", "; a comment", "label:", "  loop_1:  ; with comment", "section .text", "global _start", "%define X 5", "SECTION .data", "\t; indented comment", "GLOBAL main", "%macro foo 0", ".L1:", "done: ", "top:\t", "loop: ; top of the loop", "a1: ;", "end:   ;;; x", "  exit:", "start :", "  loop_2   :   ; head", "x\t:", "section\t.text", "GLOBAL\tmain", "\tsection\t.data\t; d", "global\t\t_start"};
   bool crlf = rng.coin(); std::string nl = crlf ? "\r\n" : "\n";
   std::string canon, noisy; size_t pos = rng.below(lines.size() + 1); bool everywhere = rng.below(3) == 0;
   for (size_t i = 0; i <= lines.size(); i++) {
@@ -270,7 +271,7 @@ static SpV check_program_noise(const std::vector<std::string> &lines, int combo,
           static const char *END[] = {"", "", "s", "cs", "ds", "es", "fs", "gs", "ss", "ax", "rax", "al", "word", "ptr", "far", "x", "0x1", "_", "1", "mm0", "section_", "h"};
           std::string name; int len = (int)rng.below(10); for (int q = 0; q < len; q++) name += "abcdefghijklmnopqrstuvwxyz_ABCDEFXYZ0123456789."[q == 0 ? rng.below(27) : rng.below(47)]; name += END[rng.below(22)]; if (name.empty() || isdigit((unsigned char)name[0])) name = "L" + name;
           static const char *AFTER[] = {"", "", " ", "\t", " ; comment", ";x"}; static const char *BEFORE[] = {"", "", "", " ", "   ", "\t"}; noisy += std::string(rng.below(4) == 0 ? "  " : "") + name + BEFORE[rng.below(6)] + ":" + AFTER[rng.below(6)] + nl; }
-        else noisy += std::string(NOISE[rng.below(22)]) + nl; } }
+        else noisy += std::string(NOISE[rng.below(26)]) + nl; } }
     if (i < lines.size()) { canon += lines[i] + "\n"; noisy += lines[i] + nl; }
   }
   if (rng.coin() && !noisy.empty()) { // final line without terminator
